@@ -75,6 +75,10 @@ type C09Scenario struct {
 	// Vanish: (A1 only) this source entry vanishes between readdir and lstat on
 	// the simulated sender disk: a read error as well, so nothing may be deleted.
 	Vanish string `json:"vanish,omitempty"`
+	// Obstacle: (without --delete) the destination holds a NON-EMPTY directory
+	// at this path where the source has a regular file. The transfer may fail,
+	// but nothing below the directory may disappear.
+	Obstacle string `json:"obstacle,omitempty"`
 }
 
 type c09 struct{}
@@ -171,6 +175,34 @@ func (c09) Generate(seed uint64, tier string, index int) any {
 	}
 	sc.Tr = g.TransportFor(min, 2*treeBytes(&sc.Src)+treeBytes(&sc.Dst))
 	out := &C09Scenario{Sync: sc}
+	if !del && g.R.Bool() {
+		for _, e := range sc.Src.Entries {
+			if e.Type != "f" {
+				continue
+			}
+			p := string(e.Path)
+			var keep []fstree.Entry
+			for _, d := range out.Sync.Dst.Entries {
+				if dp := string(d.Path); dp != p && !strings.HasPrefix(dp, p+"/") {
+					keep = append(keep, d)
+				}
+			}
+			keep = append(keep,
+				fstree.Entry{Path: fstree.Name(p), Type: "d", Perm: 0o755, Mtime: 1_500_000_000},
+				fstree.Entry{Path: fstree.Name(p + "/precious"), Type: "f", Perm: 0o644, Mtime: 1_500_000_000, Content: g.Content(100)},
+				fstree.Entry{Path: fstree.Name(p + "/sub/deeper"), Type: "f", Perm: 0o600, Mtime: 1_500_000_001, Content: g.Content(10)})
+			out.Sync.Dst.Entries = keep
+			out.Obstacle = p
+			// the transfer is expected to fail; whether a failing transfer
+			// terminates on tiny buffers is C18's business (recorded finding)
+			for _, c := range []*int{&out.Sync.Tr.CapCS, &out.Sync.Tr.CapSC} {
+				if *c >= 0 && *c < 64<<10 {
+					*c = 64 << 10
+				}
+			}
+			return out
+		}
+	}
 	if arr != "A4" && g.R.Intn(6) == 0 {
 		// prior state = what a kill in the middle of an earlier sync left
 		// behind: its temporary files are extraneous entries like any other
@@ -219,6 +251,42 @@ func (c09) Run(t *testing.T, scenario any, job *Job, res *Result) {
 		return
 	}
 	tag := ":" + arrDirection(sc.Sync.Arr)
+	if sc.Obstacle != "" {
+		if o.Delete {
+			res.Invalid = "obstacle mode is the control without --delete"
+			return
+		}
+		if _, ok := out.Before[sc.Obstacle+"/precious"]; !ok {
+			res.Invalid = "obstacle not materialised"
+			return
+		}
+		if out.S.Harness != "" {
+			return
+		}
+		if out.S.Panic != "" {
+			sessionSucceeded(res, out.S, "")
+			return
+		}
+		if out.S.Outcome != kernel.Finished {
+			res.Probe("obstacle_runs_not_finished", 1) // termination of failing transfers: C18
+		}
+		// the session may fail (a non-empty directory cannot make room for a
+		// file), but without --delete no destination path may disappear
+		for _, p := range names(out.Before) {
+			if _, ok := out.After[p]; !ok {
+				res.Violate("deleted-without-delete", "deleted-without-delete:obstacle"+tag, fmt.Sprintf("--delete was not given; the destination had a non-empty directory at %q where the source has a regular file; afterwards %q is gone (client err=%v, server err=%v)", sc.Obstacle, p, out.S.ClientErr, out.S.ServerErr))
+				setTape(&sc.Sync.Tr, out.S)
+				return
+			}
+		}
+		res.Probe("obstacle_runs", 1)
+		if out.S.ClientErr != nil || out.S.ServerErr != nil {
+			res.Probe("obstacle_runs_refused", 1)
+		}
+		res.NonTrivial = true
+		res.Sample = map[string]any{"arr": sc.Sync.Arr, "obstacle": sc.Obstacle}
+		return
+	}
 	if sfs != nil {
 		if sfs.ReadDirFails == 0 && sfs.VanishCount == 0 {
 			res.Invalid = "injected sender-disk fault did not fire"
